@@ -2,13 +2,14 @@
    correspondence check (vm_compute in the kernel, extracted OCaml) call only this. *)
 From Coq Require Import ZArith List Bool.
 Import ListNotations.
-From Eudoxia Require Import Model.Codec Model.RunLife Model.RunExec.
+From Eudoxia Require Import Model.Codec Model.RunLife Model.RunExec Model.RunTime.
 
 Definition run (kind : Z) (l : list Z) : list Z :=
   match kind with
   | 1 => run_dag l
   | 2 => run_life l
   | 3 => run_exec l
+  | 4 => run_time l
   | _ => bad_input
   end%Z.
 
